@@ -15,7 +15,9 @@ RULE = (
     "cases = (salt, splitter value, unrelated extra value) triples through compiled experiments (1 and 2 splitters, "
     "with and without conditional): str (empty, 1 char, 10^5..10^6 chars, NUL, quotes, backslash, combining marks, "
     "astral, RTL, every Unicode general category sampled), int (0, negative, up to 10^4000), float (nan, inf, -0.0, "
-    "subnormal, 1e308), bool, None; each value v also as str(v) (same bucket required); deterministic_proba range "
+    "subnormal, 1e308), bool, None; each value v also as str(v) (same bucket required); a salt sweep over ~130 hostile "
+    "strings (braces, %, $, quotes, backslashes, escape look-alikes, control and non-ASCII characters) plus random ones; "
+    "deterministic_proba range "
     "[0,1). distinct_nontrivial = distinct values that are not ASCII [A-Za-z0-9_]+ strings or ints below 2^31."
 )
 ASSUMPTIONS = [
@@ -145,6 +147,38 @@ def run(ctx):
                               mechanism="C15/same-print-different-bucket")
             else:
                 ctx.count("total/" + type(v).__name__)
+    # salt sweep: "a salt of any characters" - every hostile string of the literal pools as salt, a few units each; a group
+    # must come back and it must be the group of the published scheme (weights 1:1:2 are exact)
+    from fractions import Fraction
+
+    from pyabv.gen import literals as L
+    from pyabv.ref import bucket
+
+    salts = [x for x in L.TRICKY_STRINGS if L.expressible(x)] + ["{}", "{0}", "{uid}", "{{v1}}", "exp{2024}", "{", "}", "a}b", "%s", "%d",
+                                                                 "%(uid)s", "%", "%%", "$uid", "${uid}", "\\\\{", "{!r}", "{:>10}", "f'{uid}'"]
+    nrs = ctx.n(40, 4000)
+    salts += [L.random_string(rnd, 10) for _ in range(nrs)]
+    W = [Fraction(1), Fraction(1), Fraction(2)]
+    for si, salt in enumerate(salts):
+        if si < len(salts) - nrs and not ctx.mine(si):
+            continue
+        text = texts(salt)["one"]
+        c = im.construct(text)
+        ctx.evaluated()
+        if c[0] != "ok":
+            ctx.violation("construct-failed", dict(text=text, salt=salt, error=c[1:]), mechanism="C15/construct-failed")
+            continue
+        for uid in ("u1", 7, "\u00e9", None, 2.5, ""):
+            out = im.call(c[1], dict(uid=uid))
+            ctx.evaluated()
+            ctx.nontrivial("salt", salt, repr(uid))
+            want = "abc"[bucket.exact_index(W, bucket.position(salt, ["uid"], dict(uid=uid)))]
+            if out != ("ok", want):
+                mech = "C15/call-raised-" + out[1] if out[0] == "exc" else "C15/salt-not-honoured"
+                ctx.violation("salt-breaks-evaluation", dict(text=text, salt=salt, uid=uid, got=out, expected=want), mechanism=mech)
+                break
+        else:
+            ctx.count("salt-sweep/ok")
     ctx.sample(dict(text=texts("é")["two"], env=dict(uid="josé", region=None)))
     ctx.seen("salts", [repr(s) for s in SALTS])
 
